@@ -68,7 +68,7 @@ def _definitions(clean):
     return defs
 
 
-def _cut(gen_c, jdf, cls, out, extra=()):
+def _cut(gen_c, jdf, cls, out, extra=(), parts=("init", "startup")):
     """(extra: names of further generated functions cut whole, with their generated callees -- used by spec/C22.)
     Mechanical cut of the generated unit: prelude (everything before the first make_key function) + the counting part of
     <jdf>_<CLS>_internal_init (up to and including the block that adds nb_tasks to initial_number_tasks) + the whole
@@ -82,9 +82,26 @@ def _cut(gen_c, jdf, cls, out, extra=()):
         raise vlib.Undecided("cut: no make_key function in %s" % gen_c)
     defs = _definitions(clean)
     init, start = "%s_%s_internal_init" % (jdf, cls), "__jdf2c_startup_%s" % cls
-    for fn in (init, start):
-        if not defs.get(fn):
+    for fn, part in ((init, "init"), (start, "startup")):
+        if part in parts and not defs.get(fn):
             raise vlib.Undecided("cut: definition of %s not found exactly once" % fn)
+    if "init" not in parts or "startup" not in parts:     # spec/C22 (reduce*.jdf): only the extra functions are cut
+        if not extra or parts:
+            raise vlib.Undecided("cut: unsupported selection of parts")
+        want, todo, seen = [], [], set()
+        for fn in extra:
+            fn = fn.replace("<jdf>", jdf).replace("<CLS>", cls)
+            if not defs.get(fn):
+                raise vlib.Undecided("cut: definition of %s not found exactly once" % fn)
+            seen.add(fn); want.append(fn); todo.append((fn, clean[defs[fn][1]:defs[fn][2]]))
+        while todo:
+            _, body = todo.pop()
+            for w in set(re.findall(r"\b([A-Za-z_]\w*)\s*\(", body)):
+                if w in defs and defs[w] and w not in seen and defs[w][0] >= first:
+                    seen.add(w); want.append(w); todo.append((w, clean[defs[w][1]:defs[w][2]]))
+        open(out, "w").write("/* cut mechanically from %s by spec/C01/spec.py */\n" % os.path.basename(gen_c) + src[:first] +
+                             "".join(src[defs[w][0]:defs[w][2] + 1] + "\n" for w in sorted(want, key=lambda w: defs[w][0])))
+        return
     # the counting part of internal_init
     s, b, e = defs[init]
     m = re.search(r"parsec_atomic_fetch_add_int32\s*\(\s*&__parsec_tp->initial_number_tasks\s*,\s*nb_tasks\s*\)\s*;\s*\}", clean[b:e])
@@ -155,6 +172,7 @@ def _generate(corpus=None, cache_key="cuts", prefix="c01"):
         key, jdf, cls, case = ent[:4]
         jdf_path = ent[4] if len(ent) > 4 and ent[4] else os.path.join(HERE, "jdf", jdf + ".jdf")
         extra = ent[5] if len(ent) > 5 else ()
+        parts = ent[6] if len(ent) > 6 else ("init", "startup")
         name = prefix + jdf
         if not os.path.exists(os.path.join(d, name + ".c")):
             r = subprocess.run([os.path.join(d, "ptgpp"), "-E", "-i", jdf_path, "-o", name, "-f", name],
@@ -162,7 +180,7 @@ def _generate(corpus=None, cache_key="cuts", prefix="c01"):
             if r.returncode != 0 or not os.path.exists(os.path.join(d, name + ".c")):
                 raise vlib.Undecided("ptgpp failed on %s.jdf: %s" % (jdf, (r.stdout + r.stderr)[-500:]))
         out = os.path.join(d, "%s_%s_cut.h" % (name, cls))
-        _cut(os.path.join(d, name + ".c"), name, cls, out, extra)
+        _cut(os.path.join(d, name + ".c"), name, cls, out, extra, parts)
         cuts[key] = out
     _gen_cache[cache_key] = (d, cuts)
     return _gen_cache[cache_key]
